@@ -178,9 +178,13 @@ class SolveGroupSwizzlerPartsel(object):
                         ExprLiteralModel(t_range[0], False, 32)))
         else:
             # Determine the max width to use for swizzling. 
-            # max value of abs bounds
+            # max value of abs bounds. The bits being randomized must tell
+            # the target apart from every other value of the domain, not 
+            # just from the values of the selected range
+            dom_min = min(map(lambda r:r[0], range_l))
+            dom_max = max(map(lambda r:r[1], range_l))
 
-            maxval = int(max(abs(t_range[0]), abs(t_range[1])))
+            maxval = int(max(abs(dom_min), abs(dom_max)))
 
             d_width = 0
             
@@ -188,7 +192,7 @@ class SolveGroupSwizzlerPartsel(object):
                 d_width += 1
                 maxval >>= 1
             
-            if t_range[0] < 0 and d_width < f.width:
+            if dom_min < 0 and d_width < f.width:
                 # The range includes negative values: one more bit is needed to 
                 # tell a negative target from the positive value with the same 
                 # low-order bits
